@@ -10,6 +10,7 @@ import (
 	"compress/gzip"
 	"encoding/binary"
 	"fmt"
+	"hash/crc32"
 	"io"
 
 	"github.com/golang/snappy"
@@ -22,6 +23,9 @@ type Msg struct {
 	// Fill "rep": a highly compressible payload (a few KiB on the wire for
 	// megabytes of message) instead of one of the PRNG textures.
 	Fill string `json:"fill,omitempty"`
+	// Var selects one of several valid encodings of the same message under the
+	// announced codec (see CompressVar); only meaningful for flagged messages.
+	Var int `json:"var,omitempty"`
 }
 
 // RepPayload is a highly compressible payload that is still position
@@ -128,6 +132,118 @@ func Compress(enc string, p []byte) []byte {
 	return buf.Bytes()
 }
 
+// parts splits p into k roughly equal parts (empty parts for an empty p).
+func parts(p []byte, k int) [][]byte {
+	out := make([][]byte, 0, k)
+	for i := 0; i < k; i++ {
+		out = append(out, p[len(p)*i/k:len(p)*(i+1)/k])
+	}
+	return out
+}
+
+func snappyCRC(b []byte) uint32 {
+	c := crc32.Checksum(b, crc32.MakeTable(crc32.Castagnoli))
+	return uint32(c>>15|c<<17) + 0xa282ead8
+}
+
+// CompressVar renders p in one of several equally valid forms of the codec,
+// as different senders produce them. Every form decodes to p with a
+// conforming decoder.
+//
+//	variant 0: one writer, default level (= Compress)
+//	variant 1: gzip: three concatenated members (RFC 1952 2.2); deflate: sync
+//	           flushes between three parts; snappy: three flushed writes with a
+//	           repeated stream-identifier chunk in between
+//	variant 2: gzip: BestSpeed with name/comment/extra header fields; deflate:
+//	           stored blocks (NoCompression); snappy: hand-made uncompressed
+//	           chunks plus a padding chunk
+//	variant 3: gzip: two HuffmanOnly members followed by an empty member;
+//	           deflate: BestCompression with a flush after every part of 5;
+//	           snappy: five flushed writes
+func CompressVar(enc string, p []byte, variant int) []byte {
+	e := NormEnc(enc)
+	if variant == 0 || e == "identity" {
+		return Compress(enc, p)
+	}
+	var buf bytes.Buffer
+	switch e {
+	case "gzip":
+		member := func(level int, b []byte, decorate bool) {
+			w, _ := gzip.NewWriterLevel(&buf, level)
+			if decorate {
+				w.Name = "message.bin"
+				w.Comment = "verif"
+				w.Extra = []byte{1, 2, 3, 4}
+			}
+			w.Write(b)
+			w.Close()
+		}
+		switch variant {
+		case 1:
+			for _, q := range parts(p, 3) {
+				member(gzip.DefaultCompression, q, false)
+			}
+		case 2:
+			member(gzip.BestSpeed, p, true)
+		default:
+			for _, q := range parts(p, 2) {
+				member(gzip.HuffmanOnly, q, false)
+			}
+			member(gzip.DefaultCompression, nil, false)
+		}
+	case "deflate":
+		level, k := flate.DefaultCompression, 3
+		switch variant {
+		case 2:
+			level, k = flate.NoCompression, 1
+		case 3:
+			level, k = flate.BestCompression, 5
+		}
+		w, _ := flate.NewWriter(&buf, level)
+		for _, q := range parts(p, k) {
+			w.Write(q)
+			w.Flush()
+		}
+		w.Close()
+	case "snappy":
+		if variant == 2 {
+			buf.Write(SnappyStreamID)
+			for _, q := range parts(p, 2) {
+				for len(q) > 0 { // uncompressed chunks hold at most 65536 bytes
+					n := len(q)
+					if n > 65536 {
+						n = 65536
+					}
+					l := n + 4
+					buf.Write([]byte{0x01, byte(l), byte(l >> 8), byte(l >> 16)})
+					var c [4]byte
+					binary.LittleEndian.PutUint32(c[:], snappyCRC(q[:n]))
+					buf.Write(c[:])
+					buf.Write(q[:n])
+					q = q[n:]
+				}
+				buf.Write([]byte{0xfe, 3, 0, 0, 0, 0, 0}) // padding chunk
+			}
+			break
+		}
+		k := 3
+		if variant == 3 {
+			k = 5
+		}
+		buf.Write(SnappyStreamID)
+		w := snappy.NewBufferedWriter(&buf)
+		for i, q := range parts(p, k) {
+			w.Write(q)
+			w.Flush()
+			if i == 0 && variant == 1 {
+				buf.Write(SnappyStreamID) // may appear again anywhere in the stream
+			}
+		}
+		w.Close()
+	}
+	return buf.Bytes()
+}
+
 // Decompress is the independent decoder for the announced encoding.
 func Decompress(enc string, p []byte) ([]byte, error) {
 	switch NormEnc(enc) {
@@ -182,7 +298,7 @@ func Render(enc string, msgs []Msg, pseed uint64) *Rendered {
 		}
 		w := p
 		if m.Flag {
-			w = Compress(enc, p)
+			w = CompressVar(enc, p, m.Var)
 		}
 		s := Seg{Start: len(r.Wire)}
 		var pre [5]byte
